@@ -62,6 +62,10 @@ def run(chk):
     run_scenarios(chk, 'several failing calls in a row on one pool: each raises its own error', rs, {'C04', 'C03'},
                   nontrivial=lambda sc, o: len(o.get('raised') or []) >= 2,
                   dist=lambda sc, o: {'where': 'task' if sc['ops'][0]['fail'].get('at') else 'init' if sc['ops'][0]['fail'].get('init') else 'exit', 'calls': len(sc['ops'])})
+    ru = [gen.gen_reuse_fail_scenario(rng) for _ in range(120 if chk.tier == 'quick' else 2000)]
+    run_scenarios(chk, 'a failing call on reused workers (kept alive, or started by apply) after a call of the other ordering mode', ru, {'C04', 'C03'},
+                  nontrivial=lambda sc, o: bool(o.get('raised')),
+                  dist=lambda sc, o: {'first': sc['ops'][0]['op'], 'second': sc['ops'][1]['op'], 'elem': sc['ops'][1]['elem'], 'start': sc['pool']['start_method']})
     chk.assumptions += ['pickle/dill verdicts are inputs of the model (measured by really serialising)', 'traceback formatting/highlighting is not modelled']
 
     def search():
